@@ -18,7 +18,17 @@ func init() { core.Register("C20", Main) }
 
 func Main() {
 	r := core.Start("C20", "exploration")
-	r.SetRule("TODO")
+	r.SetRule("case = one conversation over the real lib/p2p/conn code joined by the harness duplex: " +
+		"(stream) honest SecretConnection pair, writes of 0..5120 bytes, read buffers of 1..4096 bytes, transport chunks of 1..3000 bytes, both directions, 2-5 concurrent writers; non-trivial = at least 2 frames and every byte compared; " +
+		"(tamper) one manipulation of the sealed 1044-byte frames of a short conversation by a man in the middle (flip, drop, duplicate, swap, truncate, replay, frame of another session, frame of the opposite direction, garbage, zeros), every frame position x every manipulation enumerated for the fixed conversations; non-trivial = the reader's output and final error were judged against the prefix-then-error rule; " +
+		"(handshake) one scenario of the matrix (honest, attacker with own key, attacker claiming the victim's key, replayed auth message, two-session man in the middle, rewritten ephemeral key, modified/exchanged auth frames, reflection, low-order points, malformed and oversized messages, lying length fields) with an independent protocol implementation as attacker; non-trivial = the real endpoint returned and its outcome (error / identity) was judged; " +
+		"(transport) real Switch+MultiplexTransport over loopback TCP against the attacker; " +
+		"(mconn) two real MConnections with 1-6 channels, payload 1..1024, messages of 1..capacity bytes (0 in a dedicated group, capacity+1.. in another), TrySend overflow under a network stall, FlushStop/Stop racing with senders, raw bytes fed to the packet layer; non-trivial = at least 5 accepted messages needing more packets than messages, or a judged refusal; distinct by group, case index and shape")
+	r.Assume("an on-path attacker sees and rewrites bytes of the underlying connection but holds no long-term private key other than its own; an authenticated malicious peer holds its own key only")
+	r.Assume("tamper-evidence of the handshake (DESIGN oracle): when an ephemeral key is rewritten in transit between two honest parties neither side may complete, even though both would still derive the same secret")
+	r.Assume("end of stream: a truncation exactly at a frame boundary is indistinguishable from the peer closing the connection and is reported as io.EOF after exactly the intact frames; every other manipulation must end in an error other than io.EOF")
+	r.Assume("a message accepted by Send/TrySend must be delivered unless the connection stops first: FlushStop flushes everything accepted before it was called; after a plain Stop or an error only a gap-free beginning of each channel's sequence is required")
+	r.Assume("the code's own wall-clock mechanisms (10 s send timeout, ping/pong, handshake and dial timeouts) are kept out of the oracles: pings are disabled, a Send that returns false is simply a refused message")
 	only := os.Getenv("C20_ONLY") // DEV-ONLY: group name prefix filter
 	timing := os.Getenv("C20_TIMING") != "" && !r.IsChild()
 	grp := func(name string, n int, o core.Opts, fn func(*core.Case)) {
@@ -28,31 +38,100 @@ func Main() {
 		t0 := time.Now()
 		r.Cases(name, n, o, fn)
 		if timing {
-			fmt.Fprintf(os.Stderr, "%-28s %6d cases %8.2fs\n", name, n, time.Since(t0).Seconds())
+			fmt.Fprintf(os.Stderr, "%-32s %6d cases %8.2fs\n", name, n, time.Since(t0).Seconds())
 		}
 	}
 	child := core.Opts{Procs: 8, StallSec: 150, HangIsViolation: true}
+	// (A) stream
 	grp("stream-corpus", len(writeSizeCorpus)*len(readSizeCorpus), core.Opts{Workers: 16}, streamCorpus)
-	grp("stream-random", r.N(150, 20000), core.Opts{Workers: 16}, streamRandom)
-	grp("stream-concurrent-writers", r.N(60, 6000), core.Opts{Workers: 8}, concurrentWriters)
+	grp("stream-random", r.N(300, 30000), core.Opts{Workers: 16}, streamRandom)
+	grp("stream-concurrent-writers", r.N(80, 8000), core.Opts{Workers: 8}, concurrentWriters)
+	grp("stream-interop", r.N(100, 10000), core.Opts{Workers: 16}, interopCase)
+	grp("short-frames", r.N(40, 4000), core.Opts{Workers: 8}, zeroLengthFrames)
+	// (B) tampering
 	grp("tamper-enumeration", len(tamperConversations), core.Opts{Workers: 8}, tamperEnumerate)
 	grp("tamper-all-bytes", 36, core.Opts{Workers: 16}, tamperAllBytes)
-	grp("tamper-random", r.N(200, 40000), core.Opts{Workers: 16}, tamperRandom)
+	grp("tamper-random", r.N(400, 60000), core.Opts{Workers: 16}, tamperRandom)
+	// (C) handshake
 	grp("handshake-low-order", len(lowOrderPoints), core.Opts{Workers: 8}, lowOrderAll)
-	grp("handshake-matrix", r.N(20, 1500)*len(hsScenarios), core.Opts{Workers: 16}, handshakeCase)
-	grp("handshake-malformed", r.N(2, 40)*malformedCount(), child, malformedCase)
-	grp("crafted-frames", r.N(2, 40)*len(craftedLengths), child, craftedFrames)
-	grp("short-frames", r.N(30, 2000), core.Opts{Workers: 8}, zeroLengthFrames)
+	grp("handshake-matrix", r.N(20, 2000)*len(hsScenarios), core.Opts{Workers: 16}, handshakeCase)
+	grp("handshake-malformed", r.N(2, 60)*malformedCount(), child, malformedCase)
+	grp("crafted-frames", r.N(3, 100)*len(craftedLengths), child, craftedFrames)
+	grp("transport-outbound", r.N(4, 100)*len(transportScenarios), core.Opts{Workers: 4}, outboundIdentity)
+	grp("transport-inbound", r.N(6, 200), core.Opts{Workers: 2}, inboundIdentity)
+	// (D) MConnection
 	grp("mconn-corpus", 16, core.Opts{Workers: 8}, trafficCorpus)
-	grp("mconn-traffic", r.N(150, 15000), core.Opts{Workers: 16}, trafficRandom)
+	grp("mconn-traffic", r.N(250, 25000), core.Opts{Workers: 16}, trafficRandom)
 	grp("mconn-empty-messages", r.N(20, 500), core.Opts{Workers: 8}, emptyMessages)
-	grp("mconn-oversize", r.N(60, 6000), core.Opts{Workers: 16}, oversizeCase)
-	grp("mconn-stop-race", r.N(80, 8000), core.Opts{Workers: 8}, stopRaceCase)
-	// the same concurrent workloads under the race detector (child processes of the -race binary)
-	race := core.Opts{Procs: 8, Race: true, StallSec: 300, Env: []string{"GORACE=halt_on_error=1"}}
+	grp("mconn-oversize", r.N(80, 8000), core.Opts{Workers: 16}, oversizeCase)
+	grp("mconn-stop-race", r.N(120, 12000), core.Opts{Workers: 64}, stopRaceCase) // wall time here is the 10 s send timeout of the code under test, not CPU
+	grp("mconn-garbage", r.N(8, 400)*len(garbageClasses), child, garbageCase)
+	// the concurrent workloads again under the race detector (child processes of the -race binary)
+	race := core.Opts{Procs: 8, Workers: 4, Race: true, StallSec: 300, Env: []string{"GORACE=halt_on_error=1"}}
 	grp("race-stream-concurrent-writers", r.N(40, 3000), race, concurrentWriters)
 	grp("race-mconn-traffic", r.N(60, 5000), race, trafficRandom)
-	grp("race-mconn-stop", r.N(40, 3000), race, stopRaceCase)
-	grp("mconn-garbage", r.N(6, 300)*len(garbageClasses), child, garbageCase)
+	grp("race-mconn-stop", r.N(48, 4000), race, stopRaceCase)
+
+	if !r.IsChild() {
+		// the fault-enumeration sub-check: what was enumerated, and that all of it ran
+		type convRow struct {
+			Conversation  string `json:"conversation"`
+			Writes        []int  `json:"write_sizes"`
+			Frames        int    `json:"frames"`
+			Manipulations int    `json:"position_x_manipulation_pairs"`
+		}
+		var rows []convRow
+		expected := 0
+		for _, cv := range tamperConversations {
+			n := len(manipsFor(cv.frames(), nil))
+			rows = append(rows, convRow{cv.Name, cv.Writes, cv.frames(), n})
+			expected += n
+		}
+		executed := r.Counter("tamper_enumeration_runs")
+		r.Extra("fault_enumeration", map[string]interface{}{
+			"unit":                         "sealed frame of 1044 bytes (4-byte length + 1024 data bytes + 16-byte tag)",
+			"manipulation_kinds":           []string{"flip (11 fixed bit positions per frame: length field, data, padding, tag)", "drop", "duplicate", "swap with next", "truncate (6 cut offsets incl. frame boundary)", "replay of every earlier frame (inserted / replacing)", "frame of another session (inserted / replacing)", "frame of the opposite direction", "garbage frame inserted", "zero frame"},
+			"conversations":                rows,
+			"pairs_enumerated":             expected,
+			"pairs_executed":               executed,
+			"every_byte_of_2_frames":       map[string]interface{}{"bytes": 2 * refSealed, "executed": r.Counter("tamper_all_bytes_positions")},
+			"exhaustive_over_stated_space": executed == int64(expected) && r.Counter("tamper_all_bytes_positions") == 2*refSealed,
+			"low_order_encodings":          map[string]interface{}{"listed": len(lowOrderPoints), "rejected": r.Counter("handshake_low_order_points_rejected")},
+			"malformed_handshake_scripts":  malformedCount(),
+			"garbage_classes":              len(garbageClasses),
+		})
+		if only == "" {
+			r.Floor("tamper_enumeration_runs", int64(expected))
+			r.Floor("tamper_all_bytes_positions", 2*refSealed)
+			r.Floor("handshakes_honest_ok", 500)
+			r.Floor("stream_frames", 3000)
+			r.Floor("stream_reads", 100000)
+			r.Floor("concurrent_writer_switches", 200)
+			r.Floor("interop_frames_opened_by_reference", 300)
+			r.Floor("zero_length_frames", 50)
+			r.Floor("tamper_detected_as_error", 2500)
+			r.Floor("tamper_truncation_at_frame_boundary", 20)
+			r.Floor("handshake_replays_rejected", 10)
+			r.Floor("handshake_rewritten_ephemeral_key_rejected", 10)
+			r.Floor("handshake_low_order_points_rejected", int64(len(lowOrderPoints)))
+			r.Floor("handshake_auth_messages_checked_against_reference", 10)
+			r.Floor("malformed_handshakes_rejected", 100)
+			r.Floor("unusual_but_valid_handshakes_completed_as_attacker", 10)
+			r.Floor("crafted_length_frames_rejected", 30)
+			r.Floor("transport_impersonations_rejected", 15)
+			r.Floor("mconn_messages_delivered", 5000)
+			r.Floor("mconn_trysend_false", 200)
+			r.Floor("mconn_stall_refused", 20)
+			r.Floor("mconn_messages_of_exactly_capacity", 200)
+			r.Floor("mconn_messages_multiple_of_packet_size", 200)
+			r.Floor("mconn_channel_switches_at_receiver", 1000)
+			r.Floor("mconn_empty_messages_sent", 20)
+			r.Floor("mconn_oversize_refused_with_error", 50)
+			r.Floor("mconn_stop_race_accepted_but_lost_legitimately", 100)
+			r.Floor("porcupine_checks", 200)
+			r.Floor("garbage_rejected_with_error", 40)
+			r.Floor("cases_under_race_detector", 120)
+		}
+	}
 	r.Finish()
 }
